@@ -590,8 +590,9 @@ fn gen_ops(rng: &mut Rng, g: &mut IndGen, max_ops: usize, er: u64, add_heavy_pre
 }
 
 /// `false` when some `add_all` batch of a Greedy case has, after its first improving element, a strictly better
-/// one: the population of /repo stops looking at a batch after the first improvement (see DESIGN/the report)
-fn greedy_in_hyp(cfg: &Value, ops: &[Value]) -> bool {
+/// one — the inputs on which a short-circuiting `add_all` (`acc || self.add(..)`, S35, repaired) loses the best;
+/// used only to label the cases (`later_better`) so that the evidence can count them
+fn greedy_no_later_better(cfg: &Value, ops: &[Value]) -> bool {
     let fit = |v: &Value| v[1].as_i64().unwrap();
     let mut best: Option<i64> = if cfg["init"].is_null() { None } else { Some(fit(&cfg["init"])) };
     for op in ops {
@@ -623,7 +624,7 @@ fn greedy_case(rng: &mut Rng, max_ops: usize) -> Value {
     let init = if rng.chance(1, 4) { g.fresh(rng) } else { Value::Null };
     let cfg = json!({"sel": *rng.pick(&[1u64, 1, 2, 3, 8]), "init": init});
     let ops = gen_ops(rng, &mut g, max_ops, 58, 0);
-    json!({"k": "greedy", "in_hyp": greedy_in_hyp(&cfg, &ops), "cfg": cfg, "ops": ops, "rseed": rng.below(1 << 32)})
+    json!({"k": "greedy", "later_better": !greedy_no_later_better(&cfg, &ops), "cfg": cfg, "ops": ops, "rseed": rng.below(1 << 32)})
 }
 
 fn elitism_case(rng: &mut Rng, max_ops: usize) -> Value {
@@ -719,7 +720,7 @@ fn exhaustive(kind: &str, cfg: &Value, len: usize, reduced: bool, cases: &mut Ve
         }
         let mut case = json!({"k": kind, "cfg": cfg, "ops": ops, "rseed": 1});
         if kind == "greedy" {
-            case["in_hyp"] = json!(greedy_in_hyp(cfg, case["ops"].as_array().unwrap()));
+            case["later_better"] = json!(!greedy_no_later_better(cfg, case["ops"].as_array().unwrap()));
         }
         cases.push(case);
     }
